@@ -271,6 +271,15 @@ func lruReaders(kind, capacity, clients, rounds int) lruPlan {
 }
 
 func runLRUPlan(c *vcommon.Case, p lruPlan, timed bool) {
+	for attempt := 0; attempt < maxAttempts; attempt++ {
+		if runLRUPlanOnce(c, p, timed, attempt) != porcupine.Unknown {
+			return
+		}
+	}
+}
+
+// runLRUPlanOnce executes the plan once; porcupine.Unknown asks for another execution.
+func runLRUPlanOnce(c *vcommon.Case, p lruPlan, timed bool, attempt int) porcupine.CheckResult {
 	api := newLRU(p.kind, p.capacity)
 	model := lruModel(api.Cap())
 	var clk atomic.Int64
@@ -293,13 +302,13 @@ func runLRUPlan(c *vcommon.Case, p lruPlan, timed bool) {
 	lrucache.VerifSetYield(0)
 	if h.Hung {
 		c.Inconclusive(fmt.Sprintf("%s: clients still running after %s", api.Name(), joinTimeout))
-		return
+		return porcupine.Ok
 	}
 	for _, pmsg := range h.Panics {
 		c.Violation("panic", api.Name()+": "+strings.SplitN(pmsg, "\n", 2)[0], map[string]any{"stack": pmsg})
 	}
 	if len(h.Panics) > 0 {
-		return
+		return porcupine.Ok
 	}
 	full := append(append([]porcupine.Operation{}, hist...), h.Ops...)
 	c.Eval(1)
@@ -307,7 +316,7 @@ func runLRUPlan(c *vcommon.Case, p lruPlan, timed bool) {
 		c.Count("structure_broken", 1)
 		c.Violation("structure", fmt.Sprintf("%s cap=%d after the concurrent part: %s", api.Name(), api.Cap(), msg),
 			map[string]any{"history": render(full, model.DescribeOperation), "timed": timed})
-		return
+		return porcupine.Ok
 	}
 	c.Count("structure_checked", 1)
 	// probe every key sequentially (recorded): the final content is part of the history
@@ -345,7 +354,7 @@ func runLRUPlan(c *vcommon.Case, p lruPlan, timed bool) {
 		if !puts[in.K][out.V] {
 			c.Violation("phantom-value", fmt.Sprintf("%s: get(k%d) returned %x which was never put under that key", api.Name(), in.K, out.V),
 				map[string]any{"history": render(append(full, pops...), model.DescribeOperation)})
-			return
+			return porcupine.Ok
 		}
 	}
 	for _, o := range pops {
@@ -361,14 +370,14 @@ func runLRUPlan(c *vcommon.Case, p lruPlan, timed bool) {
 			if !ok {
 				c.Violation("lost-entry", fmt.Sprintf("%s cap=%d with only %d keys: final get(k%d) returned %x, not the last value put by any client",
 					api.Name(), api.Cap(), p.keys, in.K, out.V), map[string]any{"history": render(append(full, pops...), model.DescribeOperation)})
-				return
+				return porcupine.Ok
 			}
 			c.Count("final_value_checked_no_eviction", 1)
 		}
 	}
 	if present > api.Cap() {
 		c.Violation("over-capacity", fmt.Sprintf("%s cap=%d holds %d keys at the end", api.Name(), api.Cap(), present), nil)
-		return
+		return porcupine.Ok
 	}
 	if p.keys > api.Cap() {
 		c.Count("conc_histories_with_eviction_pressure", 1)
@@ -384,8 +393,10 @@ func runLRUPlan(c *vcommon.Case, p lruPlan, timed bool) {
 		if ov > 0 {
 			c.Count("lin_histories_with_overlap", 1)
 		}
-		decide(c, fmt.Sprintf("%s cap=%d", api.Name(), api.Cap()), model, append(full, pops...),
-			map[string]any{"yield_pct": p.yield, "gomaxprocs": p.procs, "capacity": api.Cap(), "keys": p.keys})
+		if res := decide(c, fmt.Sprintf("%s cap=%d", api.Name(), api.Cap()), model, append(full, pops...),
+			map[string]any{"yield_pct": p.yield, "gomaxprocs": p.procs, "capacity": api.Cap(), "keys": p.keys}, attempt); res == porcupine.Unknown {
+			return res
+		}
 	}
 	var sb strings.Builder
 	fmt.Fprintf(&sb, "%d|%d|%d|", p.kind, p.capacity, p.keys)
@@ -406,6 +417,7 @@ func runLRUPlan(c *vcommon.Case, p lruPlan, timed bool) {
 		}
 		c.Sample(map[string]any{"target": api.Name(), "capacity": api.Cap(), "clients": len(p.progs), "history": r})
 	}
+	return porcupine.Ok
 }
 
 // seenRequests replays dot/sync's access pattern: count := Get(h); Put(h, count+1)
@@ -467,7 +479,7 @@ func seenRequests(c *vcommon.Case, timed bool) {
 	}
 	c.Count("user_seen_requests_histories", 1)
 	if timed {
-		decide(c, "dot/sync get-then-put pattern on LRUCache[common.Hash,uint]", model, append(h.Ops, pops...), map[string]any{"capacity": capacity})
+		decide(c, "dot/sync get-then-put pattern on LRUCache[common.Hash,uint]", model, append(h.Ops, pops...), map[string]any{"capacity": capacity}, maxAttempts-1)
 	}
 }
 
